@@ -385,6 +385,10 @@ theorem lite_format_mc0_bridge (mc : Bytes) (h : 1 ≤ mc.length) :
   simp only [h0, if_true, Py.bind_ok]
   py_bits
 
+/-- the complete version test of `FelicaLite._format`: version 0 is let through, otherwise the major version must be 1 -/
+theorem lite_format_ver_cond_bridge (v : Nat) : Gen.Fn.lite_format_ver_cond v = decide (v ≠ 0 ∧ v / 16 ≠ 1) := by
+  unfold Gen.Fn.lite_format_ver_cond; py_bits
+
 theorem lite_format_version_bridge (v : Nat) : Gen.Fn.lite_format_version v = decide (v / 16 ≠ 1) := by
   unfold Gen.Fn.lite_format_version; py_bits
 
